@@ -5,7 +5,7 @@ EXTENDS Integers, Sequences, TLC
 
 (* the final outcome, as a function (what the judge compares observations with) *)
 Outcome(inv, lib) ==
-  IF inv.exprsrc = "missingfile" \/ lib.stage = "compile" THEN [exit |-> 1, stdout |-> "none"]
+  IF inv.exprsrc \in {"missingfile", "notext"} \/ lib.stage = "compile" THEN [exit |-> 1, stdout |-> "none"]
   ELSE IF inv.ast THEN [exit |-> 0, stdout |-> "ast"]
   ELSE IF inv.inputsrc = "missingfile" \/ lib.stage \in {"json", "search"} THEN [exit |-> 1, stdout |-> "none"]
   ELSE [exit |-> 0, stdout |-> IF inv.unquoted /\ lib.is_string THEN "raw" ELSE "pretty"]
